@@ -1,7 +1,9 @@
 """C09 -- Syntax-quote is hygienic and destructuring binds what nth/get would return."""
 import itertools
+import os
 
 from harness.vlib import gallina as G
+from harness.vlib import paths
 from harness.props import c09_common as K
 
 ID = "C09"
@@ -18,7 +20,12 @@ RULE = ("destructuring: every pattern shape of a structured family of depth <= 2
         "namespaced groups and elements, {pattern key} entries, :or, :as, kwargs rest) crossed with "
         "conforming / short / nil / wrongly typed values (number, string, keyword, map for vector, vector "
         "for map, kwargs seq, singleton seq, odd seq) at top level and inside, through let, fn parameters "
-        "and loop (with one recur); one case in three also compiles the macroexpansion of the form. "
+        "and loop (with one recur); one case in three also compiles the macroexpansion of the form; "
+        ":or defaults range over false / nil / true / 0 / integers / a string / a keyword, and for each of 12 "
+        "kinds of map binder (:keys, :keys [ns/x], :ns/keys, :strs, :syms, :syms [ns/x], :ns/syms, {sym key} "
+        "with keyword / namespaced keyword / string / symbol / integer key) all seven defaults meet a key "
+        "that is absent, present with nil, present with false, present with a value (also mixed, nil instead "
+        "of the map, kwargs seq, kwargs rest parameter). "
         "syntax-quote: all templates of one collection with <= 2 elements over a 14-element vocabulary "
         "(core / interned / aliased / referred / special / undefined / & / .member symbols, two auto-gensyms, "
         "atoms, unquote, unquote-splice) in each of list/vector/set/map and 4 namespace states, PRNG "
@@ -54,6 +61,11 @@ ASSUMPTIONS = [
 ]
 EXHAUSTIVE = {"quick": False, "thorough": False}
 HARD_TIMEOUT = 60
+# Sensitivity runs: VERIF_C09_SRC=<copy of /repo/src> makes the implementation workers import basilisp from
+# that copy (the native overlay, the translator and the Coq side keep looking at /repo).
+_SRC = os.environ.get("VERIF_C09_SRC")
+if _SRC:
+    WORKER_ENV = {"PYTHONPATH": _SRC + os.pathsep + paths.VERIF}
 
 
 # =========================================================================================
@@ -64,6 +76,7 @@ class Ctx:
         self.rng = rng
         self.n = 0
         self.leaf = 0
+        self.od = 0
 
     def name(self):
         self.n += 1
@@ -73,9 +86,20 @@ class Ctx:
         self.leaf += 1
         return self.leaf
 
+    def ordef(self, j):
+        """The next :or default: cycles through falsey / truthy constants of every atom kind."""
+        self.od += 1
+        pool = OR_DEFAULTS + [100 + j]
+        return pool[(self.od - 1) % len(pool)]
+
 
 def KW(name, ns=None):
     return {"k": [ns, name]}
+
+
+# :or defaults: `:or` applies when the map does not CONTAIN the key, whatever the truthiness of the default
+# form: a literal false / nil default is a default like any other (false must come out as false, not nil)
+OR_DEFAULTS = [False, None, True, 0, 41, {"s": "dflt"}, {"k": [None, "dk"]}]
 
 
 def SY(name, ns=None):
@@ -156,7 +180,7 @@ def map_pat(cx, keys=0, nskeys=(), strs=0, syms=(), entries=(), ors=(), as_=Fals
             binders.append(q["sym"])
     for j in ors:
         if j < len(binders):
-            p["ors"].append([binders[j], {"c": 100 + j}])
+            p["ors"].append([binders[j], {"c": cx.ordef(j)}])
     if as_:
         p["as"] = cx.name()
     return p, {"m": m}
@@ -359,7 +383,114 @@ def d_cases(tier, rng):
                "outs": outs, "mx": False}
         yield {"k": "loop", "fam": "norec", "lab": "norec", "bs": [[p, {"c": v}], [q, {"c": w}]], "rec": None,
                "outs": outs, "mx": False}
+    yield from d_or_cases()
     yield from d_fixed()
+
+
+# ---- :or defaults of every truthiness -----------------------------------------------------
+OR_KINDS = ["keys", "keys-ns-elem", "keys-ns-group", "strs", "syms", "syms-ns-elem", "syms-ns-group",
+            "entry-kw", "entry-nskw", "entry-str", "entry-sym", "entry-int"]
+
+
+def or_pattern(kind, names, defaults, as_=None):
+    """A map pattern whose binders `names` are all of one `kind`, binder i with :or default defaults[i];
+    returns (pattern, keys): keys[i] = the key under which binder i looks."""
+    p = {"map": 1, "kgroups": [], "strs": [], "sgroups": [], "entries": [], "ors": [], "as": as_}
+    keys = []
+    for i, n in enumerate(names):
+        if kind == "keys":
+            keys.append(KW(n))
+        elif kind == "keys-ns-elem":
+            keys.append(KW(n, "q"))
+        elif kind == "keys-ns-group":
+            keys.append(KW(n, "r"))
+        elif kind == "strs":
+            keys.append({"s": n})
+        elif kind == "syms":
+            keys.append(SY(n))
+        elif kind == "syms-ns-elem":
+            keys.append(SY(n, "q"))
+        elif kind == "syms-ns-group":
+            keys.append(SY(n, "r"))
+        elif kind == "entry-kw":
+            keys.append(KW("k%d" % i))
+        elif kind == "entry-nskw":
+            keys.append(KW("k%d" % i, "q"))
+        elif kind == "entry-str":
+            keys.append({"s": "k%d" % i})
+        elif kind == "entry-sym":
+            keys.append(SY("k%d" % i))
+        else:
+            keys.append(10 + i)
+    if kind == "keys":
+        p["kgroups"] = [[None, [[None, n] for n in names]]]
+    elif kind == "keys-ns-elem":
+        p["kgroups"] = [[None, [["q", n] for n in names]]]
+    elif kind == "keys-ns-group":
+        p["kgroups"] = [["r", [[None, n] for n in names]]]
+    elif kind == "strs":
+        p["strs"] = list(names)
+    elif kind == "syms":
+        p["sgroups"] = [[None, [[None, n] for n in names]]]
+    elif kind == "syms-ns-elem":
+        p["sgroups"] = [[None, [["q", n] for n in names]]]
+    elif kind == "syms-ns-group":
+        p["sgroups"] = [["r", [[None, n] for n in names]]]
+    else:
+        p["entries"] = [[{"sym": n}, {"c": k}] for n, k in zip(names, keys)]
+    p["ors"] = [[n, {"c": d}] for n, d in zip(names, defaults)]
+    return p, keys
+
+
+def or_wrap(cnt, p, v, outs, lab):
+    """the pattern through let / fn parameter / loop with a recur onto the value, in turn"""
+    mx = cnt % 3 == 0
+    form = cnt % 4
+    if form in (0, 1):
+        return {"k": "let", "fam": "ordef", "lab": lab, "bs": [[p, {"c": v}]], "outs": outs, "mx": mx}
+    if form == 2:
+        return {"k": "fn", "fam": "ordef", "lab": lab, "ps": [p], "rest": None, "args": [v], "outs": outs,
+                "mx": mx}
+    return {"k": "loop", "fam": "ordef", "lab": lab, "bs": [[p, {"c": {"m": []}}]], "rec": [v], "outs": outs,
+            "mx": mx}
+
+
+def d_or_cases():
+    """:or defaults false / nil / true / 0 / integer / string / keyword for every kind of map binder, on
+    values where the key is absent, present with nil, present with false, present with a value."""
+    cnt = 0
+    names = ["o%d" % i for i in range(len(OR_DEFAULTS))]
+    for kind in OR_KINDS:
+        p, keys = or_pattern(kind, names, OR_DEFAULTS)
+        sit = {
+            "or-absent": {"m": [[KW("other"), 1]]},
+            "or-nil-present": {"m": [[k, None] for k in keys]},
+            "or-false-present": {"m": [[k, False] for k in keys]},
+            "or-present": {"m": [[k, 200 + i] for i, k in enumerate(keys)]},
+            # binder i: absent / nil / false / value in turn (rotated so that every default meets every
+            # situation over the two mixed cases and the four uniform ones)
+            "or-mixed": {"m": [[k, [None, False, 200 + i][i % 4 - 1]] for i, k in enumerate(keys) if i % 4]},
+            "or-mixed2": {"m": [[k, [None, False, 200 + i][(i + 2) % 4 - 1]] for i, k in enumerate(keys)
+                                if (i + 2) % 4]},
+            "or-nil-value": None,
+            "or-kwargs-absent": {"l": [KW("other"), 1]},
+        }
+        for lab, v in sit.items():
+            cnt += 1
+            yield or_wrap(cnt, p, v, names, lab)
+        # the smallest witnesses: one binder, falsey default, empty map
+        for d in (False, None):
+            cnt += 1
+            q, _ = or_pattern(kind, ["a"], [d])
+            yield {"k": "let", "fam": "ordef", "lab": "or-absent-1", "bs": [[q, {"c": {"m": []}}]], "outs": ["a"],
+                   "mx": cnt % 2 == 0}
+    # kwargs rest pattern without surplus arguments, and with the other key only
+    for kind in ("keys", "strs", "syms", "entry-kw"):
+        p, keys = or_pattern(kind, names, OR_DEFAULTS, as_="m")
+        yield {"k": "fn", "fam": "ordef", "lab": "or-rest-none", "ps": [{"sym": "x"}], "rest": p, "args": [0],
+               "outs": names + ["m"], "mx": False}
+        yield {"k": "fn", "fam": "ordef", "lab": "or-rest-some", "ps": [{"sym": "x"}], "rest": p,
+               "args": [0, keys[0], False, keys[1], 5, keys[2], None], "outs": names + ["m"], "mx": False}
 
 
 def P_sym(n):
